@@ -33,3 +33,4 @@ _reg("C23")
 _reg("C25")
 _reg("C22")
 _reg("C18")
+_reg("C29")
